@@ -13,8 +13,11 @@ export GOFLAGS=-mod=readonly GOPROXY=off
 PKGS="./demo/protobuf_getting_started ./generator ./genutil ./gnmidiff/gnmiparse ./gogen ./gogen/internal/gotypes ./integration_tests ./integration_tests/schemaops ./internal/yreflect ./protogen ./protomap ./protomap/integration_tests ./testutil ./util ./yangschema ./ygen ./ygot ./ygot/pathtranslate ./ypathgen ./ytypes"
 git apply --3way "$D/patch.diff" 2>/dev/null || git apply "$D/patch.diff" || { echo "RESULT patch does not apply"; exit 1; }
 if go test -vet=off -count=1 $PKGS > "$WT/.tests.log" 2>&1; then echo "RESULT tests-pass-with-patch"; else echo "RESULT tests-FAIL-with-patch"; grep -v "^ok" "$WT/.tests.log" | tail -20; fi
-mkdir -p "$TARGET"; for f in "$D"/demo/*.go; do cp "$f" "$TARGET/"; done
-if go test -vet=off -count=1 "$@" "./$TARGET" > "$WT/.demo1.log" 2>&1; then echo "RESULT demo-PASSES-with-patch (bad)"; else echo "RESULT demo-fails-with-patch"; grep -E "^(---|FAIL|panic)" "$WT/.demo1.log" | head -5; fi
+rundemo() {
+  if [ -f "$D/demo/run.sh" ]; then sh "$D/demo/run.sh" "$WT"; else go test -vet=off -count=1 "$@" "./$TARGET"; fi
+}
+if [ ! -f "$D/demo/run.sh" ]; then mkdir -p "$TARGET"; for f in "$D"/demo/*.go; do cp "$f" "$TARGET/"; done; fi
+if rundemo "$@" > "$WT/.demo1.log" 2>&1; then echo "RESULT demo-PASSES-with-patch (bad)"; else echo "RESULT demo-fails-with-patch"; grep -E "^(---|FAIL|panic)" "$WT/.demo1.log" | head -5; fi
 git reset -q --hard 2>/dev/null
 git status --short | grep -v "^??" | head -3
-if go test -vet=off -count=1 "$@" "./$TARGET" > "$WT/.demo2.log" 2>&1; then echo "RESULT demo-passes-without-patch"; else echo "RESULT demo-FAILS-without-patch (bad)"; tail -20 "$WT/.demo2.log"; fi
+if rundemo "$@" > "$WT/.demo2.log" 2>&1; then echo "RESULT demo-passes-without-patch"; else echo "RESULT demo-FAILS-without-patch (bad)"; tail -20 "$WT/.demo2.log"; fi
